@@ -532,9 +532,11 @@ func getTypeName(ident ir.LocalIdent) string {
 	if ident.IsUnnamed() {
 		return strconv.FormatInt(ident.LocalID, 10)
 	}
-	if x, err := strconv.ParseInt(ident.LocalName, 10, 64); err == nil {
-		// Print LocalName with quotes if it is a number; e.g. %"42".
-		return fmt.Sprintf(`"%d"`, x)
+	if strings.Trim(ident.LocalName, "0123456789") == "" {
+		// Print LocalName with quotes if it is a number; e.g. %"42". Keep the
+		// digits as written (%"007" and %"7" are distinct types) and leave other
+		// names alone (e.g. %-5 is not a number).
+		return `"` + ident.LocalName + `"`
 	}
 	return ident.LocalName
 }
